@@ -132,7 +132,7 @@ const spinWindow = 96
 
 //go:norace
 func sampleSpin() {
-	var pcs [96]uintptr
+	var pcs [1024]uintptr
 	n := runtime.Callers(2, pcs[:])
 	cur := make([]uintptr, 0, n)
 	for i := n - 1; i >= 0; i-- {
@@ -159,12 +159,25 @@ func sampleSpin() {
 // the step budget ran out.
 func SpinFunc(prefix string) string {
 	last := ""
+	count := map[string]int{}
+	var names []string
 	for _, e := range spinFns {
 		if f := runtime.FuncForPC(e); f != nil {
 			n := f.Name()
 			if len(n) >= len(prefix) && n[:len(prefix)] == prefix {
 				last = n
+				count[n]++
+				names = append(names, n)
 			}
+		}
+	}
+	// When the frames common to all samples contain a function more than once,
+	// the work that does not end is a recursion (e.g. an exponential descent),
+	// and the innermost common frame depends on where the budget ran out. The
+	// outermost function that recurs is stable.
+	for _, n := range names {
+		if count[n] > 1 {
+			return "recursion:" + n
 		}
 	}
 	return last
